@@ -120,7 +120,16 @@ func (t *Input) CoerceIn(v interface{}) (interface{}, error) {
 							return nil, inErr(err, k)
 						}
 					} else {
-						tv[k] = f.Default
+						// The default is kept as parsed, coerce it like a
+						// provided value so an Int default is an int32.
+						dv := f.Default
+						if co, _ := f.Type.(InCoercer); co != nil {
+							var err error
+							if dv, err = co.CoerceIn(dv); err != nil {
+								return nil, inErr(err, k)
+							}
+						}
+						tv[k] = dv
 					}
 				} else if _, ok := f.Type.(*NonNull); ok {
 					return nil, fmt.Errorf("%s is required but missing", k)
